@@ -294,17 +294,14 @@ impl<'a, T: Read + Write + Seek> PointCloudWriter<'a, T> {
         validate_color(prototype)?;
         validate_return(prototype)?;
 
-        // Row & column check
-        if let Some(record) = get(RecordName::RowIndex) {
-            match record.data_type {
-                RecordDataType::Integer { .. } => {}
-                _ => Error::invalid("RowIndex must have an integer type")?,
+        // Row & column check, must hold for every record with that name
+        for record in prototype {
+            let is_integer = matches!(record.data_type, RecordDataType::Integer { .. });
+            if record.name == RecordName::RowIndex && !is_integer {
+                Error::invalid("RowIndex must have an integer type")?
             }
-        }
-        if let Some(record) = get(RecordName::ColumnIndex) {
-            match record.data_type {
-                RecordDataType::Integer { .. } => {}
-                _ => Error::invalid("ColumnIndex must have an integer type")?,
+            if record.name == RecordName::ColumnIndex && !is_integer {
+                Error::invalid("ColumnIndex must have an integer type")?
             }
         }
 
@@ -748,11 +745,13 @@ fn validate_return(prototype: &[Record]) -> Result<()> {
             _ => Error::invalid("ReturnCount must have an integer type")?,
         }
     }
-    if let Some(record) = get(prototype, RecordName::ReturnIndex) {
+    if get(prototype, RecordName::ReturnIndex).is_some() {
         ret += 1;
-        match record.data_type {
-            RecordDataType::Integer { .. } => {}
-            _ => Error::invalid("ReturnIndex must have an integer type")?,
+        for record in prototype {
+            let is_integer = matches!(record.data_type, RecordDataType::Integer { .. });
+            if record.name == RecordName::ReturnIndex && !is_integer {
+                Error::invalid("ReturnIndex must have an integer type")?
+            }
         }
     }
     if ret != 0 && ret != 2 {
